@@ -64,6 +64,14 @@ def objects(tier):
                  ("empty", []), ("none", None)]
     else:
         objs += [("bytes-300KiB", _rand_bytes(300 * 1024))]
+    try:
+        import numpy as np
+    except ImportError:
+        return objs
+    # raw array data is read with exact-length reads outside the pickle stream (numpy_pickle_utils._read_bytes)
+    objs += [("ndarray-f8-40", np.arange(40.0)),
+             ("ndarray-in-dict", {"a": np.arange(12, dtype="<i4").reshape(3, 4), "b": "x", "c": np.arange(5, dtype="u1")}),
+             ("ndarray-struct", np.array([(1, 2.5), (3, 4.5)], dtype=[("i", "<i8"), ("f", "<f8")]))]
     return objs
 
 
@@ -221,9 +229,14 @@ def same(a, b):
     if type(a) is not type(b):
         return False
     try:
-        return a == b and pickle.dumps(a, 2) == pickle.dumps(b, 2)
+        return bool(a == b) and pickle.dumps(a, 2) == pickle.dumps(b, 2)
     except Exception:  # noqa
-        return a == b
+        pass
+    try:
+        # values holding numpy arrays ('==' is element-wise there): identical pickles <=> same dtype, shape and data
+        return pickle.dumps(a, 2) == pickle.dumps(b, 2)
+    except Exception:  # noqa
+        return False
 
 
 def _init():
